@@ -668,7 +668,7 @@ func (g *gen) frameSeq(spec *Spec) {
 		// sub-structures of d0 registered as variables on their own
 		d0 := spec.Docs[0]
 		for _, m := range []string{"nums", "items", "one"} {
-			spec.Docs = append(spec.Docs, DocSpec{ID: "d0." + m, JSON: d0.JSON, Alias: d0.Alias, Subslice: d0.Subslice, Member: m, Parent: "d0"})
+			spec.Docs = append(spec.Docs, DocSpec{ID: "d0." + m, JSON: d0.JSON, Alias: d0.Alias, Subslice: d0.Subslice, Typed: d0.Typed, Member: m, Parent: "d0"})
 		}
 		k := g.w.Range(1, 3)
 		for i := 0; i < k; i++ {
